@@ -54,6 +54,10 @@ def float_case(rng, fmt, W):
         k = rng.choice([W, W - 1, W - 2, W + 1])
         e = min((1 << eb) - 2, max(1, k + bias))
         m = rng.choice([0, 1, (1 << mb) - 1, rng.randrange(1 << mb)])
+    elif c == 6:
+        # the binades just below one: (0.25, 1) must truncate to 0
+        e = bias + rng.choice([-1, -1, -2])
+        m = rng.choice([0, 1, 1 << (mb - 1), (1 << mb) - 1, rng.randrange(1 << mb)])
     elif c <= 8:
         # k + {0, 1/2, 1-ulp}: small magnitudes with fractional parts (binades -2 .. mb+1)
         e = bias + rng.randrange(-3, mb + 3)
@@ -65,7 +69,7 @@ def float_case(rng, fmt, W):
 
 
 def gen(rng, tier):
-    reps = 60 if tier == "thorough" else 12
+    reps = 300 if tier == "thorough" else 60
     for cfg in cfgs(tier):
         w, n = wn(cfg)
         W = w * n
